@@ -42,6 +42,17 @@ def _switch_symbol(F, bb, syms, du, cache):
             if s.kind == "bool" and s.match(e):
                 res = (s, neg)
                 break
+    if res is None and e[0] == "call" and (e[1].endswith("::eq") or e[1].endswith("::ne")) and len(e[2]) == 2:
+        # `sym == Enum::Variant` written with PartialEq instead of a match
+        a, b = e[2]
+        for x, y in ((a, b), (b, a)):
+            if y[0] == "agg" and len(y) > 3 and y[3] is not None:
+                for s in syms:
+                    if s.kind == "discr" and s.match(x):
+                        res = (s, neg != e[1].endswith("::ne"), ("eq", y[3]))
+                        break
+            if res is not None:
+                break
     cache[bb] = res
     return res
 
@@ -180,9 +191,14 @@ def table(F, syms, actions, record_returns=True, entry=0, max_nodes=120000, path
                 else:
                     ss = _switch_symbol(F, bb, syms, du, cache)
                 if ss is not None:
-                    s, neg = ss
+                    s, neg = ss[0], ss[1]
                     val = assign[s.name]
-                    if s.kind == "bool" and neg:
+                    if len(ss) > 2:
+                        cond = (val == ss[2][1])
+                        if neg:
+                            cond = not cond
+                        val = 1 if cond else 0
+                    elif s.kind == "bool" and neg:
                         val = 0 if val else 1
                     explicit = dict((v, tb) for v, tb in t["targets"])
                     tgt = explicit[val] if val in explicit else t["otherwise"]
